@@ -1502,6 +1502,11 @@ pub fn c09_timed_case(c: &Timed9, st: &mut Stats) -> CaseResult {
         let white = q.stm == Color::White;
         let plan = plan_ms(go, white);
         st.eval();
+        // same rule as in c09_once: a third of the gos come after 120 ms of silence
+        if fp(&(ptext.as_str(), i, go)) % 3 == 0 {
+            std::thread::sleep(Duration::from_millis(120));
+            st.label("go_after_120_ms_of_silence");
+        }
         let ans = do_go(&mut e, go, plan).map_err(|m| format!("{} [{} ; go #{}]", m, ptext, i + 1))?;
         let m = check_bestmove(&ans.bestmove.clone().unwrap(), &q).map_err(|m| format!("{} [{}]", m, ptext))?;
         latency_rule(ans.delay_ms, plan, true, || c09_once(&ptext, &p, &gos, i).map(|x| x.0)).map_err(|m| format!("{} [{} ; go #{} of {:?}]", m, ptext, i + 1, gos))?;
